@@ -292,6 +292,28 @@ def decl_sources(style: str, u: str) -> dict[str, tuple[str, list[tuple[str, str
         [(t("K3S"), f"Kc{u}", "description", None), (t("K3D"), f"Kc{u}", "description", None)]
         + ([(t("K3x"), "xs" + u, "description", None), (t("K3y"), "ys" + u, "description", None)] if style in ("NUMPYDOC", "GOOGLE") else []),
     )
+    # text AFTER the sections belongs to the description as well (Google style: dedented text ends a section)
+    if style == "GOOGLE":
+        out["F5"] = (
+            f"def fe{u}(a: int) -> int:\n    \"\"\"{t('F5S')}.\n\n    {t('F5D')} extended.\n\n    Args:\n        a: {t('F5a')} first.\n\n    {t('F5T')} trailing text.\n    \"\"\"\n    return a\n",
+            [(t("F5S"), f"fe{u}", "description", None), (t("F5D"), f"fe{u}", "description", None), (t("F5a"), f"fe{u}", "param", "a"), (t("F5T"), f"fe{u}", "description", None)],
+        )
+    # parameters documented in the styles' second parameter section ('Other Parameters' / 'Keyword Args')
+    if style == "NUMPYDOC":
+        out["F6"] = (
+            f"def ff{u}(a: int, c: str = 'x', **kw: int) -> int:\n    \"\"\"{t('F6S')}.\n\n    Parameters\n    ----------\n    a : int\n        {t('F6a')} first.\n\n    Other Parameters\n    ----------------\n    c : str\n        {t('F6c')} other.\n    **kw : int\n        {t('F6k')} keywords.\n    \"\"\"\n    return a\n",
+            [(t("F6S"), f"ff{u}", "description", None), (t("F6a"), f"ff{u}", "param", "a"), (t("F6c"), f"ff{u}", "param", "c"), (t("F6k"), f"ff{u}", "param", "kw")],
+        )
+        # several attributes documented at once
+        out["K5"] = (
+            f"class Ke{u}:\n    \"\"\"{t('K5S')}.\n\n    Attributes\n    ----------\n    xg{u}, yg{u} : int\n        {t('K5g')} grouped.\n    zg{u} : str\n        {t('K5z')} single.\n    \"\"\"\n\n    xg{u}: int = 1\n    yg{u}: int = 2\n    zg{u}: str = ''\n",
+            [(t("K5S"), f"Ke{u}", "description", None), (t("K5z"), "zg" + u, "description", None), (t("K5g"), ("xg" + u, "yg" + u), "description*", None)],
+        )
+    elif style == "GOOGLE":
+        out["F6"] = (
+            f"def ff{u}(a: int, c: str = 'x', **kw: int) -> int:\n    \"\"\"{t('F6S')}.\n\n    Args:\n        a: {t('F6a')} first.\n\n    Keyword Args:\n        c: {t('F6c')} other.\n\n    Other Parameters:\n        **kw: {t('F6k')} keywords.\n    \"\"\"\n    return a\n",
+            [(t("F6S"), f"ff{u}", "description", None), (t("F6a"), f"ff{u}", "param", "a"), (t("F6c"), f"ff{u}", "param", "c"), (t("F6k"), f"ff{u}", "param", "kw")],
+        )
     out["K2"] = (
         f"class Kb{u}:\n" + d(t("K2S") + ".", t("K2D"), 4) + "\n"
         f"    def __init__(self, p: int) -> None:\n" + d(t("K2iS") + ".", t("K2iD"), 8, params=[("p", "int", t("K2p"))]) + "        self.q = p\n",
@@ -331,6 +353,12 @@ def part_b(rep: Report, tier: str) -> None:
             src = f'"""TKMOD{u} module summary.\n\nTKMOD{u} second paragraph.\n"""\n\n\n' + "\n\n".join(ds[n][0] for n in perm)
             exp = [e for n in perm for e in ds[n][1]]
             units.append((f"top:{'>'.join(perm)}", style, f"d{u}", src, exp, f"TKMOD{u}"))
+        # style-specific declarations (text after the sections, second parameter section, grouped attributes)
+        u = f"{next(uid):05d}"
+        ds = decl_sources(style, u)
+        extra_names = [n for n in ("F5", "F6", "K5") if n in ds]
+        if extra_names:
+            units.append(("style-specific", style, f"d{u}", "\n\n".join(ds[n][0] for n in extra_names), [e for n in extra_names for e in ds[n][1]], None))
         # a module WITHOUT docstring whose later string statement describes a variable: no module description
         u = f"{next(uid):05d}"
         ds = decl_sources(style, u)
@@ -413,6 +441,13 @@ def part_b(rep: Report, tier: str) -> None:
                     continue
                 if not occ:
                     viol("token-present", f"{block}:{kind}", {"token": tok, "expected_owner": owner})
+                    continue
+                if block == "description*":
+                    # one text documenting several elements at once: it is attached to exactly these
+                    if sorted(occ) == sorted((o, "description", None) for o in owner):
+                        rep.ok("token-attached")
+                    else:
+                        viol("token-attached-to-its-element-only", f"{block}:{kind}", {"token": tok, "expected": owner, "observed": occ})
                     continue
                 want = (owner, block, key)
                 if occ != [want]:
